@@ -1,6 +1,181 @@
-(* Properties/C06.v — TTHeader encode/decode round-trips and conforms to the frame layout. *)
+(* Properties/C06.v — TTHeader encode/decode round-trips and conforms to the frame layout
+   (protocol/ttheader/encode.go, decode.go, utils.go, metakey.go).  Only statements; proofs are
+   in Proofs/TTHeaderEnc.v (on top of TTHeaderSec.v / TTHeaderDec.v).
+
+   [encode tl p] is the model of Encode / EncodeToBytes: [p_int p] and [p_str p] list the two Go
+   maps IN THE ORDER `range` ENUMERATES THEM (so quantifying over the lists, or over all
+   permutations [io]/[so] of given maps, is quantifying over every iteration order); [tl] is
+   whatever the four total-length bytes held before the caller sets them ([set_total]).
+   [decode] is Decode (bytes consumed = ReadLen, result).  The writer and reader themselves
+   (bytes-backed or stream-backed, any fragmentation) are C05 / C04; the correspondence run
+   exercises both.
+   Hypotheses:  NoDup keys — the lists denote Go maps;  [params_wf] — the Go types (uint16
+   flags and int keys, int32 sequence id, uint8 protocol id, strings are byte strings);
+   [info_size < 2^32] — Encode compares uint32(size) with MaxHeaderSize, so a header info of
+   4 GiB or more is outside every statement but [C06_enc_fail_iff].  The limits the format
+   itself imposes on a frame (every key/value shorter than 65536 bytes, fewer than 65536
+   entries: [fits16b]) are CONSEQUENCES of a successful Encode (C06_enc_ok_fits16), so the
+   uint16 truncations in writeKVInfo / WriteString2BLen never act on a frame Encode returns. *)
 From GV Require Import Lib.Bytes Lib.Res Gen.Consts Model.TTHeader Spec.FrameLayout Proofs.TTHeaderP.
+From Coq Require Import Permutation.
 Open Scope N_scope.
 
-Theorem C06_consts : c_meta = L_meta /\ c_max = L_max /\ size_bits = 32 /\ gdpr_key = gdpr.
-Proof. pose proof consts_ok as H. tauto. Qed.
+Theorem C06_consts :
+  c_meta = L_meta /\ c_magic = L_magic16 * 65536 /\ c_mask = 65535 * 65536 /\ c_max = L_max /\
+  c_s32 = 4 /\ c_s16 = 2 /\ id_pad = 0 /\ id_kv = 1 /\ id_intkv = 16 /\ id_acl = 17 /\
+  size_bits = 32 /\ ttheader_Decode_headerInfoSize_signed = 0%Z /\
+  map Z.to_N ttheader_checkProtocolID_cases = [0; 4; 3; 16; 17] /\ gdpr_key = gdpr /\
+  c_streaming = L_streaming.
+Proof. exact consts_ok. Qed.
+
+(* Encode never panics; it fails exactly when uint32(header-info size) > 65536, where the size
+   is 2 + the sections + padding to a multiple of 4 ([info_size], Spec/FrameLayout.v) *)
+Theorem C06_enc_fail_iff : forall tl p,
+  NoDup (keys (p_str p)) ->
+  ((exists e, encode tl p = Err e) <-> L_max < info_size (p_int p) (p_str p) mod two32) /\
+  ((exists b, encode tl p = Ok b) <-> info_size (p_int p) (p_str p) mod two32 <= L_max).
+Proof. exact p_enc_fail_iff. Qed.
+
+Theorem C06_enc_fail_iff_nowrap : forall tl p,
+  NoDup (keys (p_str p)) -> info_size (p_int p) (p_str p) < two32 ->
+  ((exists e, encode tl p = Err e) <-> L_max < info_size (p_int p) (p_str p)).
+Proof. exact p_enc_fail_iff_nowrap. Qed.
+
+(* a produced header follows the documented layout, its length is 14 + 4 * the size field *)
+Theorem C06_enc_layout : forall tl p b,
+  NoDup (keys (p_str p)) -> params_wf p -> info_size (p_int p) (p_str p) < two32 ->
+  encode tl p = Ok b ->
+  frame (p_flags p) (p_seq p) (p_pid p) (p_int p) (p_str p) b /\
+  len b = L_meta + 4 * field_at b 12 2 /\ len b = L_meta + info_size (p_int p) (p_str p) /\
+  info_size (p_int p) (p_str p) <= L_max.
+Proof. exact enc_layout. Qed.
+
+(* why [info_size < 2^32] is a hypothesis and not a consequence: Encode converts the size to
+   uint32 before comparing it with MaxHeaderSize.  The size clause of the layout WITHOUT that
+   hypothesis is false on the code as written: with 65536 int keys carrying 65532-byte values the
+   header info is 2^32 + 8 bytes and Encode reports success (confirmed against the real Encode
+   with a counting writer, notes/findings_tth.txt).  Far outside the property's quantifier
+   ("sizes up to and just past the 65536 limit"); C06_enc_layout is the statement that holds. *)
+Definition C06_enc_size_statement : Prop :=
+  forall tl p b, NoDup (keys (p_str p)) -> params_wf p -> encode tl p = Ok b ->
+                 info_size (p_int p) (p_str p) <= L_max.
+
+Theorem C06_enc_size_statement_refuted : ~ C06_enc_size_statement.
+Proof. exact enc_size_statement_refuted. Qed.
+
+Theorem C06_enc_wrap : forall tl p,
+  NoDup (keys (p_str p)) ->
+  L_max < info_size (p_int p) (p_str p) -> info_size (p_int p) (p_str p) mod two32 <= L_max ->
+  exists b, encode tl p = Ok b /\ len b = L_meta + info_size (p_int p) (p_str p).
+Proof. exact enc_wrap. Qed.
+
+(* success implies that every length and count fits its 16-bit field *)
+Theorem C06_enc_ok_fits16 : forall tl p b,
+  NoDup (keys (p_str p)) -> info_size (p_int p) (p_str p) < two32 ->
+  encode tl p = Ok b -> fits16b p = true.
+Proof. exact enc_ok_fits16. Qed.
+
+(* every frame that follows the layout, with any payload appended and the total-length field
+   set for it, decodes to its parameters: same flags / sequence id / protocol id, the two maps
+   as finite maps (an empty map comes back nil), HeaderLen = bytes consumed = |header|,
+   PayloadLen = |payload| *)
+Theorem C06_frame_decodes : forall fl sq pid im sm b payload,
+  frame fl sq pid im sm b -> fl < 65536 -> in_signed 32 sq -> In pid L_pids ->
+  NoDup (keys im) -> NoDup (keys sm) -> len b + len payload - 4 < two32 ->
+  exists r, decode (set_total b (len b + len payload - 4) ++ payload) = (len b, Ok r) /\
+            d_flags r = fl /\ d_seq r = sq /\ d_pid r = pid /\
+            map_back N.eqb (d_int r) im /\ map_back beqb (d_str r) sm /\
+            d_hlen r = Z.of_N (len b) /\ d_plen r = Z.of_N (len payload).
+Proof. exact frame_decodes. Qed.
+
+(* the executable layout judge the correspondence run applies to the bytes the real Encode
+   produced (Spec.FrameLayout.frame_b) is sound for [frame]: whatever it accepts follows the
+   layout (and therefore decodes back, C06_frame_decodes) *)
+Theorem C06_frame_b_sound : forall fl sq pid im sm b,
+  wf b -> frame_b fl sq pid im sm b = true ->
+  frame fl sq pid im sm b /\ NoDup (keys im) /\ fl < 65536 /\ in_signed 32 sq.
+Proof. exact frame_b_sound. Qed.
+
+(* round trip: for all parameters, EVERY enumeration order [io], [so] of the two maps [im], [sm],
+   every payload, every header-info size up to and including 65536 *)
+Theorem C06_roundtrip : forall fl sq pid im sm io so tl b payload,
+  let p := {| p_flags := fl; p_seq := sq; p_pid := pid; p_int := io; p_str := so |} in
+  Permutation io im -> Permutation so sm -> NoDup (keys im) -> NoDup (keys sm) ->
+  params_wf p -> In pid L_pids -> info_size io so < two32 ->
+  encode tl p = Ok b -> len b + len payload - 4 < two32 ->
+  exists r, decode (set_total b (len b + len payload - 4) ++ payload) = (len b, Ok r) /\
+            d_flags r = fl /\ d_seq r = sq /\ d_pid r = pid /\
+            map_back N.eqb (d_int r) im /\ map_back beqb (d_str r) sm /\
+            d_hlen r = Z.of_N (len b) /\ d_plen r = Z.of_N (len payload).
+Proof. exact roundtrip. Qed.
+
+(* IsTTHeader / IsStreaming agree with the bytes they inspect (4..5 magic, 6..7 flags);
+   IsTTHeader indexes unconditionally: on fewer than 8 bytes it panics *)
+Theorem C06_is_ttheader_spec : forall b,
+  wf (take 8 b) -> 8 <= len b -> is_ttheader b = Ok (field_at b 4 2 =? L_magic16).
+Proof. exact is_ttheader_spec. Qed.
+
+Theorem C06_is_ttheader_short : forall b, len b < 8 -> exists w, is_ttheader b = Panic w.
+Proof. exact is_ttheader_short. Qed.
+
+Theorem C06_is_streaming_spec : forall b,
+  is_streaming b =
+  Ok ((8 <=? len b) && (field_at b 4 2 =? L_magic16)
+      && negb (N.land (field_at b 6 2) L_streaming =? 0)).
+Proof. exact is_streaming_spec. Qed.
+
+Theorem C06_enc_is_ttheader : forall tl p b,
+  NoDup (keys (p_str p)) -> params_wf p -> info_size (p_int p) (p_str p) < two32 ->
+  encode tl p = Ok b ->
+  is_ttheader b = Ok true /\ is_streaming b = Ok (negb (N.land (p_flags p) L_streaming =? 0)).
+Proof. exact enc_is_ttheader. Qed.
+
+(* ---------- non-vacuity ---------- *)
+(* token key + two more string keys (one empty) + two int keys, two different enumeration
+   orders: every hypothesis holds, both orders encode (to different bytes) *)
+Definition ex_im : list (N * bytes) := [(1, [97]); (65535, [])].
+Definition ex_sm : list (bytes * bytes) := [([107], [118]); (gdpr, [116; 111; 107]); ([], [])].
+Definition ex_p (io : list (N * bytes)) (so : list (bytes * bytes)) : eparam :=
+  {| p_flags := 2; p_seq := (-5)%Z; p_pid := 4; p_int := io; p_str := so |}.
+
+Example C06_nonvacuous_orders :
+  let p1 := ex_p ex_im ex_sm in
+  let p2 := ex_p (rev ex_im) (rev ex_sm) in
+  nodupk N.eqb (keys ex_im) = true /\ nodupk beqb (keys ex_sm) = true /\
+  Permutation (rev ex_im) ex_im /\ Permutation (rev ex_sm) ex_sm /\
+  params_wfb p1 = true /\ params_wfb p2 = true /\ fits16b p1 = true /\ In 4 L_pids /\
+  info_size ex_im ex_sm = 36 /\
+  exists b1 b2, encode 0 p1 = Ok b1 /\ encode 0 p2 = Ok b2 /\ b1 <> b2 /\ len b1 = 50 /\ len b2 = 50.
+Proof.
+  cbv zeta. repeat split; try (vm_compute; reflexivity).
+  - apply Permutation_sym, Permutation_rev.
+  - apply Permutation_sym, Permutation_rev.
+  - vm_compute. tauto.
+  - eexists. eexists. split; [vm_compute; reflexivity|]. split; [vm_compute; reflexivity|].
+    split; [discriminate|]. split; vm_compute; reflexivity.
+Qed.
+
+(* the 65536-byte boundary: one int-keyed value of 65,527 bytes gives a header info of exactly
+   65536 bytes — Encode succeeds (frame of 65,550 bytes, size field 0x4000) and all hypotheses
+   of the round trip hold; one byte more and Encode fails *)
+Definition ex_big (n : N) : eparam :=
+  {| p_flags := 0; p_seq := 1%Z; p_pid := 0; p_int := [(7, repeat 1 (N.to_nat n))]; p_str := [] |}.
+
+Example C06_nonvacuous_boundary :
+  params_wfb (ex_big 65527) = true /\ fits16b (ex_big 65527) = true /\
+  info_size (p_int (ex_big 65527)) [] = 65536 /\
+  match encode 0 (ex_big 65527) with
+  | Ok b =>
+    let d := decode (set_total b (len b + 3 - 4) ++ [9; 9; 9]) in
+    (len b =? 65550) && (field_at b 12 2 =? 16384) && (fst d =? 65550)
+    && match snd d with
+       | Ok r => (d_hlen r =? 65550)%Z && (d_plen r =? 3)%Z
+                 && match d_int r with Some [(7, v)] => len v =? 65527 | _ => false end
+                 && match d_str r with None => true | _ => false end
+       | _ => false
+       end
+  | _ => false
+  end = true /\
+  info_size (p_int (ex_big 65528)) [] = 65540 /\
+  encode 0 (ex_big 65528) = Err e_toolarge.
+Proof. repeat split; vm_compute; reflexivity. Qed.
